@@ -3,7 +3,9 @@
 Stages (each names what it can and cannot conclude):
 
 MC      spec/Server.tla checked on itself (MC_Server_*.cfg): tcp 2 conns x 2 requests, tcp 3 conns (thorough),
-        PacketConn/UDP loop, start twice / shutdown twice, sequential restart; safety as invariants and action
+        PacketConn/UDP loop, start twice / shutdown twice, sequential restart, failed starts (fail, fail_pc, fail_live:
+        nothing to serve on / a call that cannot succeed -> error, started stays FALSE, lock free, a following
+        Shutdown is refused, a corrected start serves: FailedStartLeavesStopped); safety as invariants and action
         properties (VIEW hides the action label), liveness (ShutdownTerminates, ServeTerminates, WorkersEnd,
         LockReleased) under weak fairness without VIEW or constraint.  A failure here is a spec bug: exit 2.
 BROKEN  every property is run against a deliberately broken variant of the action it guards (CONSTANT Bug) and
@@ -21,7 +23,9 @@ GEN     `tlc -simulate` behaviours of Server.tla (Gen_Server_*.cfg) are forced o
         the specification's state.  Not realising a plan is never a verdict; the observed events are validated by
         Trace_Server like any other run.  The same plans are replayed in a -race build.
 TV      un-gated seeded scenarios modelled on server_test.go (N in-flight queries at shutdown, start/stop race, handler
-        closes, client closes early, expiring ctx, second start/shutdown, sequential restart) on fakenet TCP and
+        closes, client closes early, expiring ctx, second start/shutdown, sequential restart, a failed start first --
+        ActivateAndServe with nothing / a closed UDP socket to serve on, ListenAndServe with an unsupported Net, an
+        unusable address or TLS without certificates -- then a Shutdown that must be refused and a corrected start) on fakenet TCP and
         PacketConn and on a real UDP loopback socket, normal and -race build; events are numbered inside the critical
         section that produced them; Trace_Server accepts or rejects each run; goroutine census (stacks filtered on
         dns.(*Server)) and len(srv.conns) after completion.
@@ -39,6 +43,10 @@ Mutants (checks/mutants/C13/*.diff; `cp -r /repo /tmp/x && git -C /tmp/x apply <
   shutdown-skips-conn-deadlines   TV/GEN server/trace-reject:shutdown.unlock (connections left un-kicked); server/hang:*
   close-before-wait [t]           TV/GEN server/trace-reject:serve.chanclosed, server/trace-reject:shutdown.returned:ok
   shutdown-keeps-listener-open [t] server/hang:ShutdownContext|ActivateAndServe; server/trace-reject:shutdown.unlock|conn.setdl:past
+  seeded C13-6 (started = true before the checks of ActivateAndServe)
+                                  TV  server/trace-reject:start.refused (the corrected start is refused) and the observed deadlock
+                                  server/hang:ShutdownContext-after-a-failed-start, tcp / pc / udp (closed *net.UDPConn and nil);
+                                  GEN the same through Gen_Server_fail / fail_pc plans (HBreak StLock StFailed ... ShRefused HFix StStarted)
   plain-unlock [t]                server/crash:fatal-error-sync-Unlock-of-unlocked-RWMutex (every stage that starts a server)
   wgadd-after-go                  NOT caught: nothing observable separates `go` from `wg.Add` (no hook can sit between the
                                   two statements without rewriting them); only a negative-counter panic by scheduling luck
@@ -49,7 +57,7 @@ import vp
 
 SPEC = os.path.join(vp.VERIF, "spec")
 
-MC_QUICK = ["tcp", "pc", "twice", "reseq", "tcp_live", "pc_live"]
+MC_QUICK = ["tcp", "pc", "twice", "reseq", "fail", "fail_pc", "tcp_live", "pc_live", "fail_live"]
 MC_THOROUGH = MC_QUICK + ["tcp3"]
 
 # (base cfg, Bug, INVARIANT|PROPERTY, property that must fail)
@@ -69,6 +77,8 @@ BROKEN = [
     ("tcp", "no_recheck", "INVARIANT", "ServeReturnsNil"),
     ("twice", "no_started_check", "PROPERTY", "StartTwiceErrors"),
     ("twice", "no_shut_check", "PROPERTY", "ShutdownNotStartedErrors"),
+    ("fail", "started_early", "PROPERTY", "FailedStartLeavesStopped"),
+    ("fail_live", "started_early", "PROPERTY", "ShutdownTerminates"),
 ]
 
 RESTART_QUICK = [("restart", "INVARIANT", "GracefulReturn"), ("restart", "INVARIANT", "ServeReturnsNil"),
@@ -364,7 +374,7 @@ def restart(ctx, binp, racebin):
 
 def gen_replay(ctx, binp, racebin):
     n = 200 if ctx.quick else 10000
-    sets = [("tcp", "tcp"), ("pc", "pc"), ("twice", "tcp"), ("reseq", "tcp")]
+    sets = [("tcp", "tcp"), ("pc", "pc"), ("twice", "tcp"), ("reseq", "tcp"), ("fail", "tcp"), ("fail_pc", "pc")]
 
     def one(cfgname, mode):
         r, vecs = ctx.tlc_vectors("Gen_Server", cfg="Gen_Server_" + cfgname, workers=1, xmx="3g", timeout=3000,
